@@ -187,6 +187,14 @@ class NestedQueryPostprocessingTransformation(QueryPostprocessingTransformation)
 
     def apply(self, rule: SigmaRule | SigmaCorrelationRule, query: Any) -> Any:
         super().apply(rule, query)
+        # The nested items work with the variables and state of the enclosing pipeline and, for each
+        # query anew, on top of the items applied there so far.
+        if self._pipeline is not None:
+            self._nested_pipeline.vars = self._pipeline.vars
+            self._nested_pipeline.state = self._pipeline.state
+            self._nested_pipeline.applied_ids = set(self._pipeline.applied_ids)
+        else:
+            self._nested_pipeline.applied_ids = set()
         query = self._nested_pipeline.postprocess_query(rule, query)
         if self._pipeline is not None:
             self._pipeline.applied_ids.update(self._nested_pipeline.applied_ids)
